@@ -32,7 +32,7 @@ Conventions as in `Buf.lean`: bytes are `Nat`, every Rust index / slice / checke
 `Lemmas/CodecDerRead.lean` proves these unreachable. Loops carry fuel; running out of fuel is the
 distinct answer `E.endless` (proved unreachable as well).
 -/
-namespace Codec.Der
+namespace Codec.DerRd
 
 /-- `der::ErrorKind` variants that the modelled code can return, the `rs_matter::error::ErrorCode`s of
 `der_utils.rs` / `cd.rs`, and the two model-only answers `panic` / `endless`. -/
@@ -368,4 +368,4 @@ def encSig (r s : List Nat) : List Nat := encTlv TAG_SEQUENCE (encUint r ++ encU
 /-- left padding to `n` bytes -/
 def padLeft (n : Nat) (l : List Nat) : List Nat := List.replicate (n - l.length) 0 ++ l
 
-end Codec.Der
+end Codec.DerRd
